@@ -20,7 +20,7 @@ Definition fq (neg : bool) (m : int) (e : Z) : Qc :=
 
 Definition near (tol a b : Qc) : bool := Qc_leb (a - b) tol && Qc_leb (b - a) tol.
 Definition ctol : Qc := qc 1 1000000000.          (* 1e-9: contracts evaluated by the library *)
-Definition ctol_sampled : Qc := qc 1 100000.      (* 1e-5: gammatone.sampled first section, see harness *)
+Definition ctol_sampled : Qc := qc 1 10000000.    (* 1e-7: gammatone.sampled first section, inside the region stated in the harness *)
 Definition qabs (a : Qc) : Qc := if Qc_leb 0 a then a else - a.
 
 Fixpoint strip0_rev (l : list Qc) : list Qc :=   (* drops leading zeros *)
